@@ -1,5 +1,6 @@
 import TruthModel.Model.Time
 import TruthModel.Driver.Sexp
+import TruthModel.Driver.C13X
 /-
 Driver glue for C13 (trusted, not part of any theorem).
 Cases:
@@ -61,6 +62,9 @@ def handle (case : Sexp) : Sexp :=
   | some "compile" => compile case.args
   | some "visit" => visit case.args
   | some "raise" => raiseCase case.args
+  | some "xcompile" => C13X.xcompile case.args
+  | some "xvisit" => C13X.xvisit case.args
+  | some "xraise" => C13X.xraise case.args
   | _ => .atom "bad-case"
 
 end TruthModel.Driver.C13
